@@ -867,7 +867,23 @@ func (x *fnCtx) evalSpecCall(env *specEnv, e *SExpr) *Val {
 		return &Val{T: t, L: []*Term{a.L[len(a.L)-1]}}
 	case "typeis":
 		a := ev(0)
-		t := x.findNamedType(args[1].Op, env.pkg)
+		var t types.Type
+		func() {
+			// a type of a package that is not loaded for this property: no value can have it
+			defer func() {
+				if r := recover(); r != nil {
+					if ee, ok := r.(engineError); ok && strings.Contains(ee.msg, "unknown package for type") {
+						t = nil
+						return
+					}
+					panic(r)
+				}
+			}()
+			t = x.findNamedType(args[1].Op, env.pkg)
+		}()
+		if t == nil {
+			return scalar(tBool, False)
+		}
 		return scalar(tBool, Eq(a.Tag(), IntLit(typeTag(t))))
 	case "as":
 		a := ev(0)
@@ -974,6 +990,29 @@ func (x *fnCtx) evalSpecCall(env *specEnv, e *SExpr) *Val {
 			rt = tString
 		}
 		return scalar(rt, App("spec."+name, rs, leaves...))
+	}
+	// a Go function of the repository whose contract declares it pure: the same uninterpreted
+	// function of its arguments that its call sites use
+	for key, con := range x.eng.db.Funcs {
+		if !con.Pure || (con.Func != name && shortPkg(con.Pkg)+"."+con.Func != name) {
+			continue
+		}
+		for _, p := range x.eng.prog.AllPackages() {
+			if p.Pkg.Path() != con.Pkg {
+				continue
+			}
+			if fn := p.Func(con.Func); fn != nil {
+				var as []*Val
+				for i := range args {
+					as = append(as, ev(i))
+				}
+				var rt types.Type = fn.Signature.Results()
+				if fn.Signature.Results().Len() == 1 {
+					rt = fn.Signature.Results().At(0).Type()
+				}
+				return x.pureResult(key, rt, as)
+			}
+		}
 	}
 	x.fail("spec: unknown function %s", name)
 	return nil
